@@ -508,6 +508,8 @@ func c19Parse(c *Ctx) {
 	if err != nil {
 		panic(anchorErr{err})
 	}
+	hfName := c.fld("github.com/quic-go/qpack", "HeaderField", "Name")
+	hfValue := c.fld("github.com/quic-go/qpack", "HeaderField", "Value")
 	for _, name := range []string{"parseHeaders", "parseTrailers"} {
 		f := c.fn(h3, "", name)
 		next := callsParam("decodeFn")
@@ -515,7 +517,8 @@ func c19Parse(c *Ctx) {
 		per := func(what string, edge func(*ssa.If, int) bool, why string) {
 			c.cut(R, "field:"+name+" "+what, &Cut{Fn: f, Start: next, Target: OrIP(next, CallsTo(addM)), Edge: edge}, why)
 		}
-		per("size limit checked for every field", EdgeRel(Rel{Op: token.GEQ, X: BinV(token.SUB, Any(), BinV(token.ADD, BinV(token.ADD, LenOf(Any()), LenOf(Any())), ConstI(32))), Y: ConstI(0)}, false),
+		// name AND value: len(Name)+len(Name) has the same shape (round-6 seed C19-2)
+		per("size limit checked for every field", EdgeRel(Rel{Op: token.GEQ, X: BinV(token.SUB, Any(), BinV(token.ADD, BinV(token.ADD, LenOf(Load(hfName)), LenOf(Load(hfValue))), ConstI(32))), Y: ConstI(0)}, false),
 			"every decoded field is charged name+value+32 against the limit before the next one is read")
 		per("name/value validated for every field", EdgeRel(Rel{Op: token.EQL, X: CallTo(vnv, -1), Y: IsNil()}, false), "every field passes lower-case name and value validation")
 		// size violation → errHeaderTooLarge
